@@ -608,9 +608,10 @@ PROPS['C15'] = dict(
     level='other',
     level_text=('the three writers are run on symbolic finalised alignments with stdio captured; the captured bytes are checked against the format rules of the property (60-column wrapping, header lines, blocks with every sequence once, in order) '
                 'and the structured MSF header values (declared length, per-row and total GCG checksums, molecule type) against an independent checksum and the kind of sequence; '
-                'C15.msf_header_fit: with snprintf replaced by its contract, every MSF header line that does not fit its line buffer (long file name, long row names) is re-allocated and printed again complete, inside its buffer'),
+                'C15.msf_header_fit: with snprintf replaced by its contract, every MSF header line that does not fit its line buffer (long file name, long row names) is re-allocated and printed again complete, inside its buffer, and no line is lost or re-ordered when the table of output lines grows; '
+                'proved: sort_out_lines (the comparator that puts the buffered Clustal / MSF lines into file order) returns the sign of the lexicographic comparison of (block, row) over the full int domain; GCGchecksum stays in 0..9999 without overflow for a row of any length (loop contract)'),
     level_note='bounded (2-3 rows, widths around the 60-column boundary); stdio replaced by capture stubs; file output path (fopen) not exercised; capacity-shrunk line table',
-    technique=T_CB + ' (harness-enforced), bounded unwinding, stdio capture stubs; native replay',
+    technique=T_CB + ' (harness-enforced; goto-instrument --dfcc with a loop contract for GCGchecksum), bounded unwinding, stdio capture stubs / snprintf by contract; native replay',
     explanation=EXPL_COMMON)
 
 PROPS['C06'] = dict(
